@@ -9,7 +9,9 @@ WT=/tmp/seedwt-$PID-$NAME
 git -C /repo worktree remove --force $WT 2>/dev/null; rm -rf $WT
 git -C /repo worktree add -q --detach $WT HEAD || exit 2
 cd $WT
-PKG=$(grep -oE '(x|app|pkg)/[a-z/]+/' $SRC/README.md | head -1)
+PKG=${4:-}
+[ -z "$PKG" ] && PKG=$(tr '\n' ' ' < $SRC/README.md | grep -oiE '(cop(y|ied)|goes?|placed?|put)[^.]{0,60}(into|to|in) `?(x|app|pkg)[a-z/]*/?' | grep -oE '(x|app|pkg)(/[a-z]+)*/?' | head -1)
+[ -z "$PKG" ] && PKG=$(grep -oE '(x|app|pkg)/[a-z/]+/' $SRC/README.md | head -1)
 [ -z "$PKG" ] && PKG=$(grep -m1 '^package' $SRC/demo_test.go >/dev/null; echo "")
 res() { echo "$1" ; }
 OUT=/verif/seeded/$PID-$NAME; mkdir -p $OUT
